@@ -455,8 +455,15 @@ class ScaledInteger(HasUnit, DataType):
     def validate(self, value, previous=None):
         # convert
         result = self(value)
-        if self.min - self.scale < value < self.max + self.scale:
-            # silently clamp when outside by not more than self.scale
+        # decide on the grid of the scale: float noise must not decide about a value
+        # which is exactly one step outside (min, max and value are multiples of scale
+        # only up to rounding errors)
+        steps = value / self.scale
+        nearest = round(steps)
+        if abs(steps - nearest) <= 8 * sys.float_info.epsilon * max(1.0, abs(steps)):
+            steps = nearest
+        if round(self.min / self.scale) - 1 < steps < round(self.max / self.scale) + 1:
+            # silently clamp when outside by less than self.scale
             return clamp(self(self.min), result, self(self.max))
         raise RangeError(f'{value:.14g} must be between between {self.min:g} and {self.max:g}')
 
